@@ -60,6 +60,21 @@ pub(crate) fn decompress(data: &[u8], expected_size: usize) -> Result<Vec<u8>> {
         ));
     }
 
+    // The second byte is the dictionary size in bits; 4, 5 and 6 (1, 2 and 4 KiB) are
+    // the only values the format knows. The exploder takes it verbatim as a shift count
+    // and as the reach of a back-reference inside its 4 KiB window, and panics on
+    // anything larger, so a corrupt value is rejected here (StormLib and pklib answer
+    // CMP_INVALID_DICTSIZE). A stream too short to have the byte is left to the
+    // exploder, which reports that as an error.
+    if let Some(&dict_bits) = data.get(1)
+        && !(4..=6).contains(&dict_bits)
+    {
+        return Err(decompression_error(
+            "PKWare",
+            format!("invalid dictionary size ({dict_bits} bits)"),
+        ));
+    }
+
     // Use the implode crate for PKWare decompression in MPQ archives
     // Based on the working implementation in msierks/mpq-rust
     let mut exploder = Exploder::new(&DEFAULT_CODE_TABLE);
